@@ -58,6 +58,7 @@ func extractSpace(p *Program, r *Report, pre string, sp publishedSpace) *spaceFa
 	ok := true
 
 	e := NewEngine(p)
+	e.EvalInits = true // coefficient tables kept in package-level variables are read through their initialisers (C11.O2: never written afterwards)
 	v, err := single(p, e, toXYZ, nil)
 	if err != nil {
 		r.Violate(pre+".affine", sp.Short+".Color.ToXYZ", sf.PosTo, "RGB→XYZ is not a single linear form: "+err.Error())
@@ -83,6 +84,7 @@ func extractSpace(p *Program, r *Report, pre string, sp publishedSpace) *spaceFa
 		}
 	}
 	e = NewEngine(p)
+	e.EvalInits = true
 	v, err = single(p, e, fromXYZ, nil)
 	if err != nil {
 		r.Violate(pre+".affine", sp.Short+".ColorFromXYZ", sf.PosFrom, "XYZ→RGB is not a single linear form: "+err.Error())
